@@ -224,8 +224,9 @@ pub fn check_value(rec: &Rec, chunk: usize, ctx: &mut Ctx) -> Result<(), Failure
         ctx.class("value:multi-part");
     }
 
-    // ---- (b) readers
-    if has_read(&k) {
+    // ---- (b) readers (not for IPv6 payload length 0 with extension headers: a reader has no enclosing
+    // length, IpHeaders::read takes the field literally; the zero rule is documented for slices)
+    if has_read(&k) && !info.variant.starts_with("v6(plen0)") {
         let mut data = e0.clone();
         data.extend(&built.suffix);
         data.extend([0x77u8; 8]);
